@@ -402,3 +402,10 @@ Proof.
   - unfold check_synced. apply check_loop_complete_none. intros n c Hin.
     eapply (check_ok_none fk l1 H). eapply Permutation_in; [symmetry; exact P|exact Hin].
 Qed.
+
+(* the example history of props/C25.v: two flushes, a queued drop *)
+Module C25Ex.
+  Definition fk : bytes := [255].
+  Definition h : list hop :=
+    [HPut 1 [97] [1]; HPut 2 [98] [7]; HFlush [1] []; HPut 1 [97] [2]; HDrop 2; HFlush [2] []].
+End C25Ex.
